@@ -11,7 +11,7 @@ import (
 // ---------------------------------------------------------------------------------------------
 // G-soup: hostile byte strings biased towards the policy's own vocabulary.
 
-var textFrags = []string{"\ncode\n", "\n", "\n\nx", "img", "input", "br", "link", "hr", "meta", "area", "x", "hello", " ", "&amp;", "&lt;", "&#x3c;b&#x3e;", "&#0;", "&#13;", "\r\n", "\r", "\x00", "&", "<", ">", "\"", "'", "&nbsp", "&ampx;", "É", "\xff", "😀",
+var textFrags = []string{"&#9 b", "&#0x", "&#x;", "&#x100000041;", "&#4294967361;", "&#65", "\ncode\n", "\n", "\n\nx", "img", "input", "br", "link", "hr", "meta", "area", "x", "hello", " ", "&amp;", "&lt;", "&#x3c;b&#x3e;", "&#0;", "&#13;", "\r\n", "\r", "\x00", "&", "<", ">", "\"", "'", "&nbsp", "&ampx;", "É", "\xff", "😀",
 	"&#1234567;", "&NewLine;", "a&b", "< b", "<3", "</", "-->", "]]>", "\t", "&#x80;", "&#xD800;", "&notit;", "&not", "&lt", "&#", "&#x", "\xc3", "\xe2\x80", "&amp;lt;", "`", "=", "\n"}
 
 var urlVals = []string{"/%2fa@^@", "http:/%2fa@^@", "/%2f::^@", "/%2Fa@b^@/c", "/search?q=&amp;amp;&amp;x=1", "/p?a=1&ampamp=2", "http://example.com/?a=&amp;lt;b", "http://example.com/", "https://a.b/c?d=e#f", "mailto:a@b.c", "/rel/path", "//host/x", "#frag", "javascript:alert(1)", "JaVaScRiPt:alert(1)", " javascript:alert(1)",
